@@ -35,6 +35,7 @@ REQUIRED = {
         'integer-typed-grids': 20,
         'cli-tables-checked': 8,
         'cli-observation-vectors-checked': 8,
+        'cli-output-on-stdout': 4,
     }
     for tier in ('quick', 'thorough')
 }
@@ -144,8 +145,20 @@ def check_cli_case(ctx, rng, index):
         outs = {}
         for obs in (False, True):
             out = os.path.join(ctx.workdir, 'r{}_{}_{}.out'.format(index, kind, int(obs)))
-            argv = ['simulate', 'rise', db, pfile, '-o', out] + (['--observations'] if obs else [])
-            status, exc = data.cli(argv)
+            argv = ['simulate', 'rise', db, pfile] + (['--observations'] if obs else [])
+            to_stdout = (index + int(obs)) % 3 == 0
+            if index % 4 == 1:
+                # (the shared options belong to the `simulate` level of the command line)
+                argv = argv[:1] + ['-vv', '--logfile', os.path.join(ctx.workdir, 'r{}.log'.format(index))] + argv[1:]
+            if to_stdout:
+                # the default: output on standard output
+                buf = io.StringIO()
+                status, exc = data.cli(argv, stdout=buf)
+                with open(out, 'w') as f:
+                    f.write(buf.getvalue())
+                rec.hit('cli-output-on-stdout')
+            else:
+                status, exc = data.cli(argv + ['-o', out])
             if exc is not None or status != 0:
                 desc = core.describe_exception(exc) if exc else {'status': status}
                 rec.violation('simulate-rise-fails', {'exception': desc, 'observations': obs}, wcase, 'rise_cli')
